@@ -275,6 +275,16 @@ pub fn generate(g: &mut Gen, thorough: bool) {
             g.push(case(kind, &[], &def, &d), "oracle-operator-adversarial-values", true);
         }
     }
+    // every built-in ellipsoid by its name, and names next to them, on operators that read their ellipsoid in
+    // different ways (named, triaxial, by pair)
+    for (name, _, _) in super::c06::ellipsoid_names() {
+        for def in [format!("cart ellps={name}"), format!("tmerc ellps={name} lon_0=9"), format!("molodensky ellps_0={name} ellps_1=GRS80 dx=1"), format!("latitude geocentric ellps={name} "), format!("cart ellps={name}x"), format!("cart ellps={}", name.to_lowercase())] {
+            let d = data(&mut g.rng, 3);
+            g.push(case("default", &[], &def, &d), "oracle-every-builtin-ellipsoid", true);
+        }
+        let d = data(&mut g.rng, 3);
+        g.push(super::op_line("default", &[], &[], &format!("cart ellps={name}"), "both", "F", &d), "model-every-builtin-ellipsoid", true);
+    }
     // the operators the model covers: the model predicts handle-or-error, count and values
     let modelled: Vec<String> = std::env::var("VERIF_MODELLED").unwrap_or_default().split(',').filter(|x| !x.is_empty() && names.iter().any(|n| n == x)).map(|x| x.to_string()).collect();
     for name in &modelled {
